@@ -43,7 +43,9 @@ def VCall(r, n, main=".", add="", carg=None):
     return {"t": "vcall", "r": r if r is not None else NONE, "n": n, "main": main, "add": add, "carg": carg if carg is not None else NONE}
 def Try(r, fn, acc): return {"t": "try", "r": r, "fn": fn, "acc": acc}
 def NilNew(): return {"t": "nilnew"}                 # Nil.new: a nil that is not the literal's object
-def View(base, els): return {"t": "view", "base": base, "els": els}     # base.bear({_iter: m{els._iter}}): a descendant with an iterator of its own
+def View(base, els, noisy=False):
+    """base.bear({_iter: m{els._iter}}): a descendant with an iterator of its own; noisy: the iterator reports (say) every element it hands out"""
+    return {"t": "view", "base": base, "els": els, "noisy": noisy}
 def Raw(s): return {"t": "rawsrc", "s": s}           # outside PanEval (unsupported), printed verbatim
 def Jump(k, x, g=None): return {"t": "jump", "k": k, "x": x, "g": g if g is not None else NONE}
 
@@ -83,6 +85,8 @@ def src(e):
     if t == "nilnew":
         return "Nil.new"
     if t == "view":
+        if e.get("noisy"):
+            return f"{src(e['base'])}.bear({{_iter: m{{{src(e['els'])}._iter.{{|it| <{{yield say(it.next)}}>}}}}}})"
         return f"{src(e['base'])}.bear({{_iter: m{{{src(e['els'])}._iter}}}})"
     if t == "estr":
         return '"' + "".join(p["s"] if p["t"] == "lit" else "#{" + src(p) + "}" for p in e["parts"]) + '"'
